@@ -62,7 +62,7 @@ def gen_plan(rng, tier):
         plan["ops"] = [{"at": round(rng.uniform(0.02, 0.98), 4), "torn": round(rng.uniform(0.02, 0.98), 3)} for _ in range(rng.randint(1, 3))]
     else:
         plan["ops"] = [{"start_at": round(rng.uniform(0.1, 0.9), 3), "advance_every": rng.choice([1, 1, 2, 3, 5, 8]), "steps": rng.choice([1, 1, 2, 3]),
-                        "after_short": rng.choice([0, 1, 1, 2, 3])}]
+                        "after_short": rng.choice([0, 1, 1, 2, 3]), "start_torn": rng.random() < 0.7}]
         plan["des"]["dense_splits"] = rng.random() < 0.7      # records reach the file in 2-5 pieces: torn states are the rule while the reader runs
     return plan
 
@@ -368,6 +368,13 @@ def execute(plan, ctx):
     # ---- live: the reader races the writers
     op = plan["ops"][0]
     sim.run_until(op["start_at"] * t_end)
+    if op.get("start_torn"):
+        # bias: let the reader start while the last record of some file is only partly on disk
+        for _ in range(60):
+            torn = any(os.path.exists(sim.path(i)) and images[i].complete_before(sim.bytes_written[i]) >= 0 and
+                       sim.bytes_written[i] not in images[i].boundaries() for i in range(len(images)))
+            if torn or not sim.step():
+                break
     if any(not os.path.exists(sim.path(i)) for i in range(len(images))):
         ctx.probe("live_before_all_files_exist")
         return
